@@ -7,5 +7,7 @@ From Coq Require Extraction ExtrOcamlBasic.
 From Chess3 Require Export Model.TimeCtl.
 From Chess3 Require Export Model.BoardDef.
 From Chess3 Require Export Model.BoardStreams.
+From Chess3 Require Export Model.FenStreams.
+From Chess3 Require Export Spec.FenSpec.
 
 Extraction Language OCaml.
